@@ -905,6 +905,57 @@ fn grid() {
     out::count("grid_cells", n as i128);
 }
 
+/// Accessors made by the public unsafe constructors (no parent container), trivial queries, and
+/// the AtomicInteger constructor: the bytes they name are exactly those at the given pointer.
+fn direct_constructors() {
+    use vm_memory::{AtomicInteger, VolatileArrayRef, VolatileMemory, VolatileRef};
+    let a = Cont::arena(64, Place::C(0));
+    let init: Vec<u8> = (0..64u8).map(|i| i.wrapping_mul(7) | 1).collect();
+    a.fill(&init);
+    let mut model = init.clone();
+    // SAFETY: inside the live arena.
+    let r = unsafe { VolatileRef::<u32>::new(a.ptr().add(4)) };
+    r.store(0xa1b2c3d4);
+    model[4..8].copy_from_slice(&0xa1b2c3d4u32.to_ne_bytes());
+    let _: &() = r.bitmap();
+    if r.load() != 0xa1b2c3d4 || r.len() != 4 || a.read_all() != model {
+        v("VolatileRef::new/bytes-differ-from-model", J::Null);
+    }
+    // SAFETY: inside the live arena.
+    let arr = unsafe { VolatileArrayRef::<u16>::new(a.ptr().add(9), 5) };
+    arr.store(2, 0x1122);
+    model[13..15].copy_from_slice(&0x1122u16.to_ne_bytes());
+    let n = arr.copy_from(&[1u16, 2]);
+    let _ = n;
+    model[9..11].copy_from_slice(&1u16.to_ne_bytes());
+    model[11..13].copy_from_slice(&2u16.to_ne_bytes());
+    let mut back = [0u16; 7];
+    let got = arr.copy_to(&mut back);
+    let _: &() = arr.bitmap();
+    if got != 5 || back[..3] != [1, 2, 0x1122] || arr.len() != 5 || arr.is_empty() || arr.element_size() != 2 || arr.load(2) != 0x1122 || a.read_all() != model {
+        v("VolatileArrayRef::new/bytes-differ-from-model", jobj! {"copied" => got});
+    }
+    // SAFETY: empty array at a valid address.
+    let empty = unsafe { VolatileArrayRef::<u64>::new(a.ptr().add(16), 0) };
+    if !empty.is_empty() || empty.len() != 0 || empty.copy_to(&mut [0u64; 2]) != 0 {
+        v("VolatileArrayRef::new/empty", J::Null);
+    }
+    let s = a.slice();
+    if VolatileMemory::is_empty(&s) || VolatileMemory::len(&s) != 64 || !VolatileMemory::is_empty(&s.subslice(64, 0).unwrap()) {
+        v("VolatileMemory::is_empty", J::Null);
+    }
+    let ai = <std::sync::atomic::AtomicU32 as AtomicInteger>::new(7);
+    ai.store(9, std::sync::atomic::Ordering::SeqCst);
+    if AtomicInteger::load(&ai, std::sync::atomic::Ordering::SeqCst) != 9 {
+        v("AtomicInteger::new", J::Null);
+    }
+    if a.frame_broken().is_some() {
+        v("direct-constructors/wrote-outside-the-container", J::Null);
+    }
+    out::key("direct-constructors", true);
+    out::eval(8);
+}
+
 /// Transfer magnitude: lengths at and around powers of two up to several MiB (chunked bulk
 /// copies, size-threshold fast paths) on an mmap-backed container, every byte-moving route.
 fn big_transfers(shard: (u64, u64)) {
@@ -1022,6 +1073,11 @@ pub fn run(args: &Args) {
     if !cfg!(miri) && !args.flag("nobig") {
         if let Err(p) = guarded(|| big_transfers(args.shard())) {
             v(&format!("panic/big/{}", panic_sig(&p)), J::s(p));
+        }
+    }
+    if si == 0 {
+        if let Err(p) = guarded(direct_constructors) {
+            v(&format!("panic/direct-constructors/{}", panic_sig(&p)), J::s(p));
         }
     }
     if si == 0 && !args.flag("nogrid") {
